@@ -320,6 +320,11 @@ func runC10(pl *plan.Plan, out *plan.Outcome) {
 				ki := int(op.A) % len(keys)
 				if simMember {
 					clk.curOwner = keys[ki]
+				} else {
+					// Real clock: keep transmissions (hence expiries) at distinct instants. The runtime
+					// starts the callbacks of timers that expire at the same instant in a random order,
+					// which would make the run depend on something the simulator does not control.
+					env.Sleep(time.Nanosecond)
 				}
 				// the table may legitimately have lost expired templates: sync before computing the expectation
 				if !check(fmt.Sprintf("before op %d", i), false) {
